@@ -5,8 +5,9 @@ import json, os, time, random, collections, itertools, concurrent.futures as cf
 from . import common as C
 from . import router as R
 
-BODY = ["", "*", "b", "n", "zz", "s.x", "b.zz", "s", "r", "mp"]
-RESP = ["", "sub", "echo", "echo.n", "zz", "id.x", "sub.zz", "id"]
+BODY = ["", "*", "b", "n", "zz", "s.x", "b.zz", "s", "r", "mp", "mp.value", "mp.key", "rn.s", "r.x"]
+RESP = ["", "sub", "echo", "echo.n", "zz", "id.x", "sub.zz", "id", "echo.mp.value", "echo.rn.s"]
+VARFP = ["", "", "", "n.s", "b.s", "n.deep.s", "zz", "s.x", "n.zz", "mp.value", "mp.key", "rn.s", "r.x", "n", "r", "mp"]
 CONFLICT = ["none", "same", "samevar", "implicit", "implicitOther", "starOnConcrete", "concreteOnStar", "leafThenBad", "belowLeafThenBad", "verbLeafThenBad"]
 NAMES = [("vs", "X", "Mx"), ("vs", "Svc", "M"), ("v", "Svc", "Mx"), ("a.b", "S1", "Get_2"), ("vs", "S_x", "M9"),
          ("", "Top", "Call"), ("x.y.z", "A", "B"), ("vs", "Svc", "Aa")]
@@ -40,15 +41,19 @@ def gen_cases(scratch, tier, seed, path):
     cases = []
     for x in xs:
         cases.append(dict(id=len(cases) + 1, kind="tmpl", x=x, onto="base" if rnd.random() < 0.5 else "empty",
-                          body="", resp="", nested=False, conflict="none"))
+                          body="", resp="", nested=False, conflict="none", varfp=""))
     for b, r, n, cfl, onto in itertools.product(BODY, RESP, [False, True], CONFLICT, ["base", "empty"]):
         if onto == "empty" and cfl not in ("none", "implicit"):
             continue
-        cases.append(dict(id=len(cases) + 1, kind="rule", x=[], onto=onto, body=b, resp=r, nested=n, conflict=cfl))
+        cases.append(dict(id=len(cases) + 1, kind="rule", x=[], onto=onto, body=b, resp=r, nested=n, conflict=cfl, varfp=""))
+    for vf, b, cfl, onto in itertools.product(VARFP[3:], ["", "*", "b"], ["none", "leafThenBad"], ["base", "empty"]):
+        if onto == "empty" and cfl != "none":
+            continue
+        cases.append(dict(id=len(cases) + 1, kind="rule", x=[], onto=onto, body=b, resp="", nested=False, conflict=cfl, varfp=vf))
     for pkg, svc, m in NAMES:
         for onto in ("base", "empty"):
             cases.append(dict(id=len(cases) + 1, kind="name", x=[], onto=onto, body="", resp="", nested=False,
-                              conflict="none", pkg=pkg, svc=svc, method=m))
+                              conflict="none", varfp="", pkg=pkg, svc=svc, method=m))
     with open(path, "w") as f:
         for c in cases:
             f.write(json.dumps(c) + "\n")
